@@ -85,7 +85,13 @@ func TestVerifReplay(t *testing.T) {
 	if err := json.Unmarshal(data, &cases); err != nil {
 		t.Fatal(err)
 	}
-	var results []verifCaseResult
+	// one result line per finished case, written at once: a case that kills the process (fatal error) loses
+	// nothing that came before it, and the driver resumes behind it
+	f, err := os.OpenFile(out, os.O_CREATE|os.O_WRONLY|os.O_TRUNC, 0o644)
+	if err != nil {
+		t.Fatal(err)
+	}
+	defer f.Close()
 	for _, c := range cases {
 		n := c.Repeat
 		if n < 1 {
@@ -99,10 +105,9 @@ func TestVerifReplay(t *testing.T) {
 			}
 		}
 		r.Detail = strings.ToValidUTF8(r.Detail, "?")
-		results = append(results, r)
-	}
-	b, _ := json.Marshal(results)
-	if err := os.WriteFile(out, b, 0o644); err != nil {
-		t.Fatal(err)
+		b, _ := json.Marshal(r)
+		if _, err := f.Write(append(b, '\n')); err != nil {
+			t.Fatal(err)
+		}
 	}
 }
